@@ -714,7 +714,7 @@ func (t *tracer) resegment(g *gen, what string, wire enc.Wire, rt bool) {
 func (t *tracer) tamperSweep(g *gen, id int, what string, b []byte, sk *signerKind, regions func(off int) string) {
 	limit := 220
 	if !t.quick {
-		limit = 2500
+		limit = 500
 	}
 	if len(b) > limit {
 		return
